@@ -661,6 +661,7 @@ func (q *TransferQueue) enqueueAndCollectRetriesFor(batch batch) (batch, error) 
 
 	for _, o := range bRes.Objects {
 		if !requested[o.Oid] {
+			tools.VerifTrace("tq.reply", o.Oid, "ignored")
 			q.errorc <- errors.New(tr.Tr.Get("[%v] The server returned an unknown OID.", o.Oid))
 			continue
 		}
@@ -718,6 +719,7 @@ func (q *TransferQueue) enqueueAndCollectRetriesFor(batch batch) (batch, error) 
 	// Objects the server did not mention at all can never complete.
 	for _, t := range batch {
 		if requested[t.Oid] {
+			tools.VerifTrace("tq.reply", t.Oid, "omitted")
 			q.errorc <- errors.New(tr.Tr.Get("[%v] The server did not return this object.", t.Oid))
 			q.Skip(t.Size)
 			q.wait.Done()
